@@ -185,10 +185,19 @@ def keysEq : List VExpr → List VExpr → BExpr
   | l :: ls, r :: rs => fun ρ => some (keyEq (l ρ) (r ρ) && (keysEq ls rs ρ == some true))
   | _, _ => bFalse
 
-/-- `hashjoin type cond lkeys rkeys left right`: key match by `DataValue` equality, then the
+/-- What an operator sees of a row when it is only given the columns `S`: the hash / merge join
+executors evaluate the left keys on the left input's row and the right keys on the right input's
+row (`resolve_column_index(lkeys, left)`), never on the joined row. -/
+def maskTo (S : Col → Bool) (ρ : Env) : Env := fun x => if S x then ρ x else .null
+
+/-- A key list as evaluated on one input only. -/
+def keysOn (S : Col → Bool) (ks : List VExpr) : List VExpr := ks.map fun e => fun ρ => e (maskTo S ρ)
+
+/-- `hashjoin type cond lkeys rkeys left right`: the left keys (read from the left row only) match
+the right keys (read from the right row only) by `DataValue` equality of non-NULL keys, then the
 residual condition. `mergejoin` denotes the same relation (on sorted inputs). -/
 def hashjoin (t : JoinType) (cond : BExpr) (lk rk : List VExpr) (L R : Rel) : Rel :=
-  join t (fun ρ => some ((keysEq lk rk ρ == some true) && holds cond ρ)) L R
+  join t (fun ρ => some ((keysEq (keysOn L.owned lk) (keysOn R.owned rk) ρ == some true) && holds cond ρ)) L R
 
 def mergejoin := hashjoin
 
